@@ -33,6 +33,11 @@ def plan(tier, seed):
     jobs += wc if tier == "thorough" else wc[:6]
     jobs.append(ch("C01", "vf/pyshim/h_write.py", "h_write_new_options", t,
                    ["writer.write (new dataset)", "writer.write_simple / write_multi / make_metadata (signatures)"]))
+    for nm in (0, 1, 2, 3):
+        j = ch("C01", "vf/pyshim/h_meta.py", "h_make_metadata", t, ["writer.make_metadata"],
+               shape=dict(has_nulls=["True", "False", "None", "list"][nm]), env=dict(VERIF_NULLMODE=nm))
+        j["name"] += "[has_nulls=%d]" % nm
+        jobs.append(j)
     jobs.append(ch("C01", "vf/pyshim/h_codec.py", "h_codec_dispatch", t,
                    ["compression.compress_data", "compression.decompress_data"]))
     # text/bytes values: pack -> unpack round trip of the BYTE_ARRAY codec without trailing padding (dictionary pages,
